@@ -17,6 +17,8 @@ for sid in sorted(os.listdir(os.path.join(V, "seeded"))):
     for p in caught:
         sigs += r[p]["signatures"][:2]
     first = "missed at first" if "MISSED" in m["caught_by"] else "caught as built"
+    if m.get("superseded"):
+        first += "; superseded by %s: the change no longer breaks the property on the repaired tree (was caught before: %s)" % (m["superseded"]["by_fix"], m["superseded"]["caught_before"])
     rows.append("| %s | %s | %s | %s | %s | %s |" % (
         sid, ", ".join("`%s`" % f.replace("lambda/", "") for f in files), m["needs_to_manifest"].replace("|", "/")[:230],
         ", ".join(caught) or "-", first, "; ".join("`%s`" % s.replace("|", "/")[:70] for s in sigs[:3])))
